@@ -969,7 +969,10 @@ class Columns(Widget, WidgetContainerMixin, WidgetContainerListContentsMixin):
         if size:
             return super().pack(size, focus)
         widths, heights, _ = self.get_column_sizes(size, focus)
-        return (sum(widths) + self.dividechars * max(len(widths) - 1, 0), max(heights))
+        # as render(): hidden (zero-width) columns take no divider, a shown column is followed by one unless it is the last
+        last = len(widths) - 1
+        cols = sum(width + (self.dividechars if idx < last else 0) for idx, width in enumerate(widths) if width > 0)
+        return (cols, max(heights))
 
     def render(
         self,
